@@ -15,7 +15,7 @@ theorem deVec_cons (isU8 : Bool) {f : Bytes → Out (Val × Bytes)} {m : Nat}
   unfold deVec
   intro bs vs rest h
   obtain ⟨⟨n, r1⟩, h1, h2⟩ := Out.bind_eq_ok_iff.mp h
-  obtain ⟨c1, e1, l1⟩ := readU32_cons bs n r1 h1
+  obtain ⟨c1, e1, l1⟩ := readU32_consumes bs n r1 h1
   dsimp only at h2
   split at h2
   · simp at h2
@@ -31,7 +31,7 @@ theorem deVec_cons (isU8 : Bool) {f : Bytes → Out (Val × Bytes)} {m : Nat}
     · simp only [if_true] at h2
       obtain ⟨⟨b, r2⟩, h3, h4⟩ := Out.map_eq_ok_iff.mp h2
       simp at h4
-      obtain ⟨c2, e2, l2⟩ := readBulk_cons n r1 b r2 h3
+      obtain ⟨c2, e2, l2⟩ := readBulk_consumes n r1 b r2 h3
       have hb : b.length = n := by
         rw [slice_readBulk] at h3
         split at h3
@@ -47,7 +47,7 @@ theorem deVec_cons (isU8 : Bool) {f : Bytes → Out (Val × Bytes)} {m : Nat}
 theorem deVec_cons4 (isU8 : Bool) {f : Bytes → Out (Val × Bytes)} (hf : Cons f (fun _ => 0)) :
     Cons (deVec Rd.slice isU8 f) (fun _ => 4) := by
   unfold deVec
-  apply Cons.bind readU32_cons (w₂ := fun _ _ => 0) _ _ (fun _ _ => by omega)
+  apply Cons.bind readU32_consumes (w₂ := fun _ _ => 0) _ _ (fun _ _ => by omega)
   intro n bs b rest h
   dsimp only at h
   split at h
@@ -59,7 +59,7 @@ theorem deVec_cons4 (isU8 : Bool) {f : Bytes → Out (Val × Bytes)} (hf : Cons 
     · simp only [if_true] at h
       obtain ⟨⟨q, r2⟩, h3, h4⟩ := Out.map_eq_ok_iff.mp h
       simp at h4
-      obtain ⟨c, e, _⟩ := readBulk_cons n bs q r2 h3
+      obtain ⟨c, e, _⟩ := readBulk_consumes n bs q r2 h3
       exact ⟨c, by rw [e, h4.2], Nat.zero_le _⟩
 
 macro "cons_leaf" : tactic =>
@@ -74,24 +74,24 @@ theorem de_cons_all : ∀ t : Ty, ∀ st, Cons (de Rd.slice st t) (fun _ => minW
     intro k st
     show Cons (fun s => de Rd.slice st (.int k) s) _
     simp only [de, minWire]
-    exact Cons.map (readMapped_cons _) _ (fun _ _ => rfl) _ (fun _ _ => Nat.le_refl _)
+    exact Cons.map (readMapped_consumes _) _ (fun _ _ => rfl) _ (fun _ _ => Nat.le_refl _)
   case h_nonzero =>
     intro k st
     show Cons (fun s => de Rd.slice st (.nonzero k) s) _
     simp only [de, minWire]
-    apply Cons.bind (readMapped_cons _) (w₂ := fun _ _ => 0) _ _ (fun _ _ => by omega)
+    apply Cons.bind (readMapped_consumes _) (w₂ := fun _ _ => 0) _ _ (fun _ _ => by omega)
     intro a; cons_leaf
   case h_float =>
     intro k st
     show Cons (fun s => de Rd.slice st (.float k) s) _
     simp only [de, minWire]
-    apply Cons.bind (readMapped_cons _) (w₂ := fun _ _ => 0) _ _ (fun _ _ => by omega)
+    apply Cons.bind (readMapped_consumes _) (w₂ := fun _ _ => 0) _ _ (fun _ _ => by omega)
     intro a; cons_leaf
   case h_bool =>
     intro st
     show Cons (fun s => de Rd.slice st .bool s) _
     simp only [de, minWire]
-    apply Cons.bind readU8_cons (w₂ := fun _ _ => 0) _ _ (fun _ _ => by omega)
+    apply Cons.bind readU8_consumes (w₂ := fun _ _ => 0) _ _ (fun _ _ => by omega)
     intro a; cons_leaf
   case h_str =>
     intro k st
@@ -99,12 +99,12 @@ theorem de_cons_all : ∀ t : Ty, ∀ st, Cons (de Rd.slice st t) (fun _ => minW
     simp only [de, minWire]
     have hbv : Cons (deByteVec Rd.slice) (fun _ => 4) := by
       unfold deByteVec
-      apply Cons.bind readU32_cons (w₂ := fun _ _ => 0) _ _ (fun _ _ => by omega)
+      apply Cons.bind readU32_consumes (w₂ := fun _ _ => 0) _ _ (fun _ _ => by omega)
       intro n bs b rest h
       dsimp only at h
       split at h
       · simp at h; exact ⟨[], by simp [h.2], Nat.zero_le _⟩
-      · obtain ⟨c, e, _⟩ := readBulk_cons n bs b rest h
+      · obtain ⟨c, e, _⟩ := readBulk_consumes n bs b rest h
         exact ⟨c, e, Nat.zero_le _⟩
     apply Cons.bind hbv (w₂ := fun _ _ => 0) _ _ (fun _ _ => by omega)
     intro a; cons_leaf
@@ -112,24 +112,24 @@ theorem de_cons_all : ∀ t : Ty, ∀ st, Cons (de Rd.slice st t) (fun _ => minW
     intro st
     show Cons (fun s => de Rd.slice st .asciiChar s) _
     simp only [de, minWire]
-    apply Cons.bind readU8_cons (w₂ := fun _ _ => 0) _ _ (fun _ _ => by omega)
+    apply Cons.bind readU8_consumes (w₂ := fun _ _ => 0) _ _ (fun _ _ => by omega)
     intro a; cons_leaf
   case h_raw =>
     intro k st
     show Cons (fun s => de Rd.slice st (.raw k) s) _
     simp only [de, minWire]
-    exact Cons.map (readMapped_cons _) _ (fun _ _ => rfl) _ (fun _ _ => Nat.le_refl _)
+    exact Cons.map (readMapped_consumes _) _ (fun _ _ => rfl) _ (fun _ _ => Nat.le_refl _)
   case h_seq =>
     intro k t ih st
     show Cons (fun s => de Rd.slice st (.seq k t) s) _
     have hb : Cons (fun s => (readU32 Rd.slice s).bind fun r =>
         (repeatDe (fun s => (readU8 Rd.slice s).map fun b => (Val.int b.1.toNat, b.2)) r.1 r.2).map
           fun q => (Val.list q.1, q.2)) (fun _ => 4) := by
-      apply Cons.bind readU32_cons (w₂ := fun _ _ => 0) _ _ (fun _ _ => by omega)
+      apply Cons.bind readU32_consumes (w₂ := fun _ _ => 0) _ _ (fun _ _ => by omega)
       intro n
       dsimp only
       have h8 : Cons (fun s => (readU8 Rd.slice s).map fun b => (Val.int b.1.toNat, b.2)) (fun _ => 1) :=
-        Cons.map readU8_cons _ (fun _ _ => rfl) _ (fun _ _ => Nat.le_refl _)
+        Cons.map readU8_consumes _ (fun _ _ => rfl) _ (fun _ _ => Nat.le_refl _)
       exact Cons.map (Cons.weaken (repeatDe_cons_exact h8 n) (w' := fun _ => 0) (fun _ => Nat.zero_le _))
         _ (fun _ _ => rfl) _ (fun _ _ => Nat.le_refl _)
     have hv : Cons (deVec Rd.slice t.isU8 (de Rd.slice st t)) (fun _ => 4) :=
@@ -175,7 +175,7 @@ theorem de_cons_all : ∀ t : Ty, ∀ st, Cons (de Rd.slice st t) (fun _ => minW
         rename_i k; cases k <;> simp_all [Ty.isU8]
       subst ht
       simp only [minWire, IntK.width, Nat.mul_one]
-      exact Cons.map (readMapped_cons n) _ (fun _ _ => rfl) (fun _ => n) (fun _ _ => Nat.le_refl _) bs b rest h
+      exact Cons.map (readMapped_consumes n) _ (fun _ _ => rfl) (fun _ => n) (fun _ _ => Nat.le_refl _) bs b rest h
     · exact Cons.map (repeatDe_cons_exact (ih st) n) _ (fun _ _ => rfl) (fun _ => n * minWire t) (fun _ _ => Nat.le_refl _) bs b rest h
   case h_prod =>
     intro k fs ih st
@@ -186,7 +186,7 @@ theorem de_cons_all : ∀ t : Ty, ∀ st, Cons (de Rd.slice st t) (fun _ => minW
     intro k vs ih st
     show Cons (fun s => de Rd.slice st (.sum k vs) s) _
     simp only [de, minWire]
-    apply Cons.bind readU8_cons (w₂ := fun _ _ => 0) _ _ (fun _ _ => by omega)
+    apply Cons.bind readU8_consumes (w₂ := fun _ _ => 0) _ _ (fun _ _ => by omega)
     intro tag; dsimp only
     exact Cons.map (ih st _ _ _) _ (fun _ _ => rfl) _ (fun _ _ => Nat.le_refl _)
   case h_wrap =>
@@ -198,7 +198,7 @@ theorem de_cons_all : ∀ t : Ty, ∀ st, Cons (de Rd.slice st t) (fun _ => minW
     intro t _ st
     show Cons (fun s => de Rd.slice st (.custom t) s) _
     simp only [de, minWire]
-    exact Cons.map (readMapped_cons _) _ (fun _ _ => rfl) _ (fun _ _ => Nat.le_refl _)
+    exact Cons.map (readMapped_consumes _) _ (fun _ _ => rfl) _ (fun _ _ => Nat.le_refl _)
   case h_fnil =>
     intro st
     show Cons (fun s => deFields Rd.slice st [] s) _
